@@ -128,7 +128,7 @@ func StateNeededForProtoEvent(protoEvent *ProtoEvent) (result StateNeeded, err e
 	// Extract the 'content' object from the event if it is m.room.member as we need to know 'membership'
 	var content *membershipContent
 	if protoEvent.Type == spec.MRoomMember {
-		if err = json.Unmarshal(protoEvent.Content, &content); err != nil {
+		if err = unmarshalExact(protoEvent.Content, &content); err != nil {
 			err = errorf("unparseable member event content: %s", err.Error())
 			return
 		}
@@ -146,7 +146,7 @@ func StateNeededForAuth(events []PDU) (result StateNeeded) {
 		// Extract the 'content' object from the event if it is m.room.member as we need to know 'membership'
 		var content *membershipContent
 		if event.Type() == spec.MRoomMember {
-			_ = json.Unmarshal(event.Content(), &content)
+			_ = unmarshalExact(event.Content(), &content)
 		}
 		// Ignore errors when accumulating state needed.
 		// The event will be rejected when the actual checks encounter the same error.
@@ -824,7 +824,7 @@ func checkPowerLevelEventV2(sender string, createEvent PDU, oldPowerLevels, newP
 func checkPowerLevelEventV3(sender string, createEvent PDU, oldPowerLevels, newPowerLevels PowerLevelContent) error {
 	// Enforce the creator does not appear in the users map
 	var content CreateContent
-	if err := json.Unmarshal(createEvent.Content(), &content); err != nil {
+	if err := unmarshalExact(createEvent.Content(), &content); err != nil {
 		return errorf("checkPowerLevelEventV3 unparseable create event content: %s", err.Error())
 	}
 	creators := []string{string(createEvent.SenderID())}
@@ -1054,7 +1054,7 @@ func (m *membershipAllower) membershipAllowed(event PDU) error { // nolint: gocy
 	var err error
 	if event.Type() == spec.MRoomMember {
 		mapping := membershipContent{}
-		if err := json.Unmarshal(event.Content(), &mapping); err != nil {
+		if err := unmarshalExact(event.Content(), &mapping); err != nil {
 			return err
 		}
 		if mapping.MXIDMapping != nil && m.roomVersionImpl.Version() == RoomVersionPseudoIDs {
